@@ -315,17 +315,30 @@ def check(ctx):
             ctx.violation('C04.R5', BER, init, '%s::%s.__init__' % (BER, c.name), 'segments of a constructed %s must be decoded as %s (X.690 8.7/8.21)' % (kind, 'the same type' if kind in ('BIT STRING', 'OCTET STRING') else 'OCTET STRING'), stmt='segment type')
     if n5 < 12:
         raise AnalysisError('C04.R5 found only %d primitive-or-constructed cells' % n5)
-    f = poc.methods['decode_constructed_contents']
-    v = sem.View(f)
-    segdec = [c for c in sem.method_calls(f, 'decode', v) if isinstance(v.expr(c.func), ast.Attribute) and v.text(v.expr(c.func).value) == 'self.segment']
-    if not segdec:
-        # through a helper that is handed the segment type and calls its decode
-        from .. import defaults
-        segdec = [st_ for st_ in defaults.EncodeSites(poc, method='decode').sites if st_[0] is f and st_[2] == 'self.segment']
-    ok = bool(segdec) and bool(sem.method_calls(f, 'decode_constructed_segments', v))
-    ctx.instance('C04.R5', 'decode_constructed_contents decodes each segment with the segment type (nested segmentation recurses)', 'ok' if ok else 'VIOLATION', node=f, file=BER)
-    if not ok:
-        ctx.violation('C04.R5', BER, f, Model.qual(f), 'constructed contents must be decoded segment by segment through self.segment.decode', stmt='segment recursion')
+    # every definition of decode_constructed_contents (the base class and any subclass that overrides it, in ber and der)
+    from .. import defaults
+    defs = [(poc, poc.methods['decode_constructed_contents'])]
+    for rel_ in (BER, 'asn1tools/codecs/der.py'):
+        for c_ in model.mod(rel_).classes.values():
+            if c_ is not poc and poc in c_.mro() and 'decode_constructed_contents' in c_.methods:
+                defs.append((c_, c_.methods['decode_constructed_contents']))
+    for c_, f in defs:
+        v = sem.View(f)
+        segdec = [c for c in sem.method_calls(f, 'decode', v) if isinstance(v.expr(c.func), ast.Attribute) and v.text(v.expr(c.func).value) == 'self.segment']
+        if not segdec:
+            # through a helper that is handed the segment type and calls its decode
+            segdec = [st_ for st_ in defaults.EncodeSites(c_, method='decode').sites if st_[0] is f and st_[2] == 'self.segment']
+        # a segment is never decoded with the type object itself: `self` may carry an IMPLICIT tag, the segments always carry the universal one
+        own = [c for c in sem.method_calls(f, 'decode', v) if isinstance(v.expr(c.func), ast.Attribute) and v.text(v.expr(c.func).value) == 'self']
+        delegates = any(isinstance(c.func, ast.Attribute) and isinstance(c.func.value, ast.Call) and ast.unparse(c.func.value.func) == 'super' and c.func.attr == 'decode_constructed_contents'
+                        for c in walk_no_nested(f) if isinstance(c, ast.Call))
+        ok = (bool(segdec) and bool(sem.method_calls(f, 'decode_constructed_segments', v)) or delegates) and not own
+        ctx.instance('C04.R5', '%s decodes each segment with the segment type (nested segmentation recurses)' % Model.qual(f), 'ok' if ok else 'VIOLATION', node=f, file=f._mod.rel)
+        if not ok:
+            ctx.violation('C04.R5', f._mod.rel, own[0] if own else f, Model.qual(f),
+                          'constructed contents must be decoded segment by segment through self.segment.decode%s' %
+                          (': here the segments are decoded with `self`, whose tag may have been replaced by an IMPLICIT tag while the segments keep the universal tag' if own else ''),
+                          stmt='segment recursion')
     st = model.cls(BER, 'StringType')
     f = st.methods['decode_constructed_segments']
     segs = flow.param_names(f)[1]
@@ -437,3 +450,25 @@ MUTANTS = [
             break""", expect='C04.R4'),
 ]
 REFACTORS = []
+
+MUTANTS.append(dict(name='BIT STRING decodes its constructed segments with the (possibly re-tagged) type itself', file=BER,
+                    old="""    def decode_constructed_segments(self, segments):
+        decoded = bytearray()
+        number_of_bits = 0""", new="""    def decode_constructed_contents(self, data, offset, length):
+        segments = []
+        end_offset = None if length is None else offset + length
+
+        while True:
+            end_of_data, offset = is_end_of_data(data, offset, end_offset)
+            if end_of_data:
+                break
+
+            decoded, offset = self.decode(data, offset)
+            check_decode_error(self, decoded, data, offset)
+            segments.append(decoded)
+
+        return self.decode_constructed_segments(segments), offset
+
+    def decode_constructed_segments(self, segments):
+        decoded = bytearray()
+        number_of_bits = 0""", expect='C04.R5'))
